@@ -444,7 +444,8 @@ const O_GUARD: u64 = 32;      // restored vectoriser refuses to work until the t
 const JSON_ULPS: i128 = 4;
 const O_JSON: u64 = 128;      // serde_json round trip differs by more than 1 ulp or in structure
 const O_REFIT: u64 = 256;     // restored parameter set with a function tokenizer silently refits with the regex tokenizer
-const O_PANIC: u64 = 512;     // (de)serialisation or an observation panicked
+const O_PANIC: u64 = 512;
+const O_HISTORY: u64 = 1024;  // a value that went through two or more round trips (documented re-arming in between) differs from the original     // (de)serialisation or an observation panicked
 
 struct Ctx {
     out: Out,
@@ -509,6 +510,8 @@ struct Gathered {
     obs1: Option<Result<Vec<String>, String>>,
     eq: Option<bool>,
     reser: Option<Result<Vec<u8>, String>>,
+    /// second generation: the restored value serialised again and restored again (Err = refused / panicked)
+    gen2: Option<Result<(Result<Val, String>, Result<Vec<String>, String>, Option<bool>), String>>,
     /// tree of the value at the time JSON serialised it, JSON text or error
     json: Option<(Val, Result<Result<Result<Val, String>, String>, String>)>,
 }
@@ -524,7 +527,7 @@ fn rt<T: Serialize + DeserializeOwned>(
     if !ctx.out.wanted(id) { return; }
     let tree = record(v);
     let bincode = bincode::serialize(v).map_err(|e| e.to_string());
-    let mut g = Gathered { tree, bincode, restored_ok: Ok(Ok(())), tree2: None, obs0: Ok(vec![]), obs0b: Ok(vec![]), obs1: None, eq: None, reser: None, json: None };
+    let mut g = Gathered { tree, bincode, restored_ok: Ok(Ok(())), tree2: None, obs0: Ok(vec![]), obs0b: Ok(vec![]), obs1: None, eq: None, reser: None, gen2: None, json: None };
     if let (Ok(tree), Ok(bytes)) = (&g.tree, &g.bincode) {
         let restored: Result<Result<T, String>, String> = guarded(AssertUnwindSafe(|| bincode::deserialize::<T>(bytes).map_err(|e| e.to_string())));
         g.obs0 = guarded(AssertUnwindSafe(|| obs(v)));
@@ -537,6 +540,14 @@ fn rt<T: Serialize + DeserializeOwned>(
                 g.obs1 = Some(guarded(AssertUnwindSafe(|| obs(r))));
                 g.eq = eq.map(|f| f(v, r));
                 g.reser = Some(bincode::serialize(r).map_err(|e| e.to_string()));
+                if let Some(Ok(b2)) = &g.reser {
+                    let r2: Result<Result<T, String>, String> = guarded(AssertUnwindSafe(|| bincode::deserialize::<T>(b2).map_err(|e| e.to_string())));
+                    g.gen2 = Some(match r2 {
+                        Ok(Ok(r2)) => Ok((record(&r2), guarded(AssertUnwindSafe(|| obs(&r2))), eq.map(|f| f(v, &r2)))),
+                        Ok(Err(e)) => Err(format!("bincode::deserialize failed: {}", e)),
+                        Err(p) => Err(format!("bincode::deserialize panicked: {}", p)),
+                    });
+                }
             }
         }
         if !o.no_json && all_finite(tree) {
@@ -613,11 +624,29 @@ fn judge(ctx: &mut Ctx, id: u64, ty: &str, o: &Opts, g: Gathered) {
             // observations that are not even reproducible on the original (e.g. the parallel k-means|| initialiser)
             // cannot witness a difference: they are masked out and counted
             let (mut o0, o0b, mut o1) = (g.obs0, g.obs0b, g.obs1.unwrap_or_else(|| Ok(vec![])));
+            let mut masked: Vec<usize> = vec![];
             if let (Ok(a), Ok(a2), Ok(b)) = (&mut o0, &o0b, &mut o1) {
                 if a.len() == a2.len() && a.len() == b.len() {
                     for i in 0..a.len() {
-                        if strip_layout(&a[i]) != strip_layout(&a2[i]) { a[i] = "<not reproducible>".into(); b[i] = "<not reproducible>".into(); ctx.out.bump("observation_not_reproducible_on_original"); }
+                        if strip_layout(&a[i]) != strip_layout(&a2[i]) { a[i] = "<not reproducible>".into(); b[i] = "<not reproducible>".into(); masked.push(i); ctx.out.bump("observation_not_reproducible_on_original"); }
                     }
+                }
+            }
+            // second generation (restored -> serialised again -> restored again) against the ORIGINAL
+            match g.gen2 {
+                None => {}
+                Some(Err(e)) => ctx.out.rust_fail(id, O_HISTORY | O_DESER, &tagrefs, &format!("the bytes of the restored value cannot be read back (second round trip): {}", e), &desc),
+                Some(Ok((t3, o2, eq2))) => {
+                    match t3 {
+                        Ok(t3) => { let un: Vec<&str> = o.unordered.clone(); if let Some(d) = first_diff(&canon(&tree, &un), &canon(&t3, &un), "$") { ctx.out.rust_fail(id, O_HISTORY, &tagrefs, &format!("after a second round trip the value serialises to a different tree: {}", d), &desc); } }
+                        Err(e) => ctx.out.rust_fail(id, O_HISTORY, &tagrefs, &format!("second-generation value cannot be recorded: {}", e), &desc),
+                    }
+                    match (&o0, o2) {
+                        (Ok(a), Ok(mut b)) => { for &i in &masked { if i < b.len() { b[i] = "<not reproducible>".into(); } } if let Some(d) = diff_obs(a, &b) { ctx.out.rust_fail(id, O_HISTORY, &tagrefs, &format!("behaviour differs after a second round trip: {}", d), &desc); } }
+                        (Ok(_), Err(p)) => ctx.out.rust_fail(id, O_HISTORY | O_PANIC, &tagrefs, &format!("second-generation value panics where the original does not: {}", p), &desc),
+                        _ => {}
+                    }
+                    if eq2 == Some(false) { ctx.out.rust_fail(id, O_HISTORY, &tagrefs, "second-generation value compares unequal (PartialEq) to the original", &desc); }
                 }
             }
             match (o0, o1) {
@@ -1519,6 +1548,8 @@ fn sec_text(ctx: &mut Ctx, r: &mut Sm64) {
         let fp: fn(&str) -> Vec<&str> = if rep % 2 == 0 { tok_ws } else { tok_chars3 };
         let pf = CountVectorizer::params().tokenizer(Tokenizer::Function(fp)).convert_to_lowercase(rep % 2 == 0).n_gram_range(1, 1 + rep % 2);
         function_tokenizer_cases(ctx, &pf, fp, &docs, &fresh);
+        tokenizer_histories(ctx, &pf, fp, &docs, &fresh, false);
+        tokenizer_histories(ctx, &pf, fp, &docs, &fresh, true);
     }
 }
 
@@ -1595,6 +1626,106 @@ fn function_tokenizer_cases(ctx: &mut Ctx, pf: &linfa_preprocessing::CountVector
             }
         }
         ctx.out.rust_eval(&desc, Some(fnv(&bytes)));
+    }
+}
+
+/// Histories: a vectoriser with a function tokenizer is sent through three round trips (bincode, serde_json, bincode),
+/// with or without the documented re-arming step after each of them. Oracle: in every state the value either
+/// transforms exactly like the original, or - while no tokenizer function is installed - answers the documented
+/// `TokenizerNotSet`; after re-arming it is identical again. A silently different transform is never acceptable.
+fn tokenizer_histories(ctx: &mut Ctx, pf: &linfa_preprocessing::CountVectorizerParams, fp: fn(&str) -> Vec<&str>, docs: &Array1<String>, fresh: &Array1<String>, tfidf: bool) {
+    use linfa_preprocessing::tf_idf_vectorization::{FittedTfIdfVectorizer, TfIdfVectorizer};
+    use linfa_preprocessing::{CountVectorizer, CountVectorizerParams, PreprocessingError, Tokenizer};
+    let tg = ["type_CountVectorizer", "text", "tokenizer_function", "history"];
+    fn hop<T: Serialize + DeserializeOwned>(v: &T, json: bool) -> Result<T, String> {
+        if json { let s = serde_json::to_string(v).map_err(|e| e.to_string())?; serde_json::from_str(&s).map_err(|e| e.to_string()) }
+        else { let b = bincode::serialize(v).map_err(|e| e.to_string())?; bincode::deserialize(&b).map_err(|e| e.to_string()) }
+    }
+    #[derive(PartialEq, Debug, Clone)]
+    enum St { Same, NotSet, Different(String) }
+    let patterns: [[bool; 3]; 5] = [[true, true, true], [true, false, false], [false, true, false], [true, false, true], [false, false, true]];
+    for (pi, arm) in patterns.iter().enumerate() {
+        let id = ctx.id; ctx.id += 1;
+        if !ctx.out.wanted(id) { continue; }
+        let kind = if tfidf { "FittedTfIdfVectorizer" } else if pi % 2 == 0 { "CountVectorizer" } else { "CountVectorizerParams" };
+        ctx.out.bump(&format!("history_{}", kind));
+        let desc = format!("{{\"type\": \"{} with Tokenizer::Function, history\", \"rearm_after_round_trip\": {:?}, \"formats\": \"bincode, serde_json, bincode\", \"docs\": {}}}", kind, arm, jstr(&format!("{:?}", docs.to_vec())));
+        let mut trace: Vec<String> = vec![];
+        let mut problem: Option<String> = None;
+        // the three kinds share the protocol; closures give the state of the current value
+        if tfidf {
+            let orig = TfIdfVectorizer::default().tokenizer(Tokenizer::Function(fp)).fit(docs).expect("tf-idf fit with function tokenizer");
+            let reference = orig.transform(fresh).map(|m| format!("{:?}", m.to_dense())).map_err(|e| e.to_string());
+            let state = |v: &FittedTfIdfVectorizer| match v.transform(fresh) {
+                Ok(m) => if Ok(format!("{:?}", m.to_dense())) == reference && v.vocabulary() == orig.vocabulary() { St::Same } else { St::Different("transform differs".into()) },
+                Err(PreprocessingError::TokenizerNotSet) => St::NotSet,
+                Err(e) => St::Different(format!("unexpected error {}", e)),
+            };
+            if state(&orig) != St::Same { problem = Some("the original does not reproduce its own transform".into()); }
+            let mut cur = hop(&orig, false);
+            for step in 0..3 {
+                let mut v = match cur { Ok(v) => v, Err(e) => { problem.get_or_insert(format!("round trip {} failed: {}", step + 1, e)); break; } };
+                let st = state(&v);
+                trace.push(format!("rt{}:{:?}", step + 1, st));
+                if let St::Different(d) = &st { problem.get_or_insert(format!("after round trip {} (trace {:?}) the vectoriser transforms without error but not like the original: {}", step + 1, trace, d)); }
+                if arm[step] {
+                    v.force_tokenizer_redefinition(fp);
+                    let st = state(&v);
+                    trace.push(format!("arm:{:?}", st));
+                    if st != St::Same { problem.get_or_insert(format!("after re-arming following round trip {} (trace {:?}) the vectoriser is not identical to the original: {:?}", step + 1, trace, st)); }
+                }
+                cur = hop(&v, step % 2 == 0);
+            }
+        } else if pi % 2 == 0 {
+            let orig = pf.fit(docs).expect("fit with function tokenizer");
+            let reference = orig.transform(fresh).map(|m| format!("{:?}", m.to_dense())).map_err(|e| e.to_string());
+            let state = |v: &CountVectorizer| match v.transform(fresh) {
+                Ok(m) => if Ok(format!("{:?}", m.to_dense())) == reference && v.vocabulary() == orig.vocabulary() { St::Same } else { St::Different("transform differs".into()) },
+                Err(PreprocessingError::TokenizerNotSet) => St::NotSet,
+                Err(e) => St::Different(format!("unexpected error {}", e)),
+            };
+            if state(&orig) != St::Same { problem = Some("the original does not reproduce its own transform".into()); }
+            let mut cur = hop(&orig, false);
+            for step in 0..3 {
+                let mut v = match cur { Ok(v) => v, Err(e) => { problem.get_or_insert(format!("round trip {} failed: {}", step + 1, e)); break; } };
+                let st = state(&v);
+                trace.push(format!("rt{}:{:?}", step + 1, st));
+                if let St::Different(d) = &st { problem.get_or_insert(format!("after round trip {} (trace {:?}) the vectoriser transforms without error but not like the original: {}", step + 1, trace, d)); }
+                if arm[step] {
+                    v.force_tokenizer_function_redefinition(fp);
+                    let st = state(&v);
+                    trace.push(format!("arm:{:?}", st));
+                    if st != St::Same { problem.get_or_insert(format!("after re-arming following round trip {} (trace {:?}) the vectoriser is not identical to the original: {:?}", step + 1, trace, st)); }
+                }
+                cur = hop(&v, step % 2 == 0);
+            }
+        } else {
+            // parameter set: observed through fit + transform (canonical form, the numbering of the vocabulary is hash-order dependent)
+            let obs = |p: &CountVectorizerParams| -> Result<(Vec<String>, String), PreprocessingError> { let v = p.fit(docs)?; let m = v.transform(fresh)?; Ok((sorted(v.vocabulary()), bag(v.vocabulary(), &m))) };
+            let reference = obs(pf).map_err(|e| e.to_string());
+            let state = |p: &CountVectorizerParams| match obs(p) {
+                Ok(x) => if Ok(x) == reference { St::Same } else { St::Different("fit/transform differs".into()) },
+                Err(PreprocessingError::TokenizerNotSet) => St::NotSet,
+                Err(e) => St::Different(format!("unexpected error {}", e)),
+            };
+            if state(pf) != St::Same { problem = Some("the original does not reproduce its own fit".into()); }
+            let mut cur = hop(pf, false);
+            for step in 0..3 {
+                let mut v = match cur { Ok(v) => v, Err(e) => { problem.get_or_insert(format!("round trip {} failed: {}", step + 1, e)); break; } };
+                let st = state(&v);
+                trace.push(format!("rt{}:{:?}", step + 1, st));
+                if let St::Different(d) = &st { problem.get_or_insert(format!("after round trip {} (trace {:?}) the parameter set fits without error but not like the original: {}", step + 1, trace, d)); }
+                if arm[step] {
+                    v = v.tokenizer(Tokenizer::Function(fp));
+                    let st = state(&v);
+                    trace.push(format!("arm:{:?}", st));
+                    if st != St::Same { problem.get_or_insert(format!("after setting the tokenizer again following round trip {} (trace {:?}) the parameter set is not identical to the original: {:?}", step + 1, trace, st)); }
+                }
+                cur = hop(&v, step % 2 == 0);
+            }
+        }
+        if let Some(p) = problem { ctx.out.rust_fail(id, O_HISTORY, &tg, &p, &desc); }
+        ctx.out.rust_eval(&desc, Some(fnv(format!("{:?}{:?}{}", arm, trace, kind).as_bytes()) ^ fnv(desc.as_bytes())));
     }
 }
 
